@@ -29,6 +29,7 @@ class Knobs:
         self.no_state_names = False  # code never mentions state names (C17)
         self.avoid_nondet = True     # transitions of one state on one event get distinct priorities
         self.shared_code = 0.06      # an action whose source text is also a plausible guard / condition text
+        self.twins = 0.06            # a transition gets a twin that differs in its guard only (complementary guards)
         self.history_focus = 0.0     # probability, per history state, of adding leave / come-back transitions
         self.__dict__.update(kw)
 
@@ -84,7 +85,8 @@ class ChartGen:
                 if kind < 0.6:
                     stmts.append("send('%s', v=x, b=%s)" % (r.choice(k.send_names), r.choice(['True', 'False', 'x > 2'])))
                 elif kind < 0.8:
-                    stmts.append("send('%s', delay=%d, v=y, b=%s)" % (r.choice(k.send_names), r.randint(0, 3),
+                    stmts.append("send('%s', delay=%d, v=y, b=%s)" % (r.choice(k.send_names),
+                                                                   r.randint(-1 if getattr(k, 'neg_delays', False) else 0, 3),
                                                                    r.choice(['True', 'False'])))
                 else:
                     stmts.append("notify('n%d', v=y)" % r.randint(0, 2))
@@ -230,6 +232,16 @@ class ChartGen:
             t = Transition(src, tgt, event=ev, guard=guard, action=self.action_code(True), priority=pr)
             self.contracts(t)
             sc.add_transition(t)
+            if k.twins and r.random() < k.twins and (k.flags or ev is not None):
+                # same source, target, event, action, priority and contracts: only the guards tell them apart
+                g = 'event.b' if (ev is not None and (not k.flags or r.random() < 0.3)) else 'v%d' % r.randrange(k.flags)
+                pair = [g, 'not ' + g]
+                r.shuffle(pair)
+                t.guard = pair[0]
+                t2 = Transition(src, tgt, event=ev, guard=pair[1], action=t.action, priority=pr)
+                t2.preconditions, t2.postconditions, t2.invariants = (
+                    list(t.preconditions), list(t.postconditions), list(t.invariants))
+                sc.add_transition(t2)
         # history scenarios: a way out of the parent and a way back through the history state
         for h in hist:
             if r.random() >= k.history_focus:
@@ -275,6 +287,25 @@ class ChartGen:
 
 
 # ---- statecharts with a past: used, then restructured through the editing API, then used again ----
+MUTABLES = ('class Cell:\n    _vp_cell = True\n    def __init__(self):\n        self.n = 0'
+            '\nbag = []\ncell = Cell()')
+
+
+def add_mutables(rnd, sc):
+    """Variables bound to mutable objects that the code changes in place (a list; an instance of a plain class,
+    which is hashable), created by the entry code of the root state, and conditions — true by construction — that
+    compare them with what `__old__` shows.  Implementation only: the model has no such values."""
+    root = sc.state_for(sc.root)
+    root.on_entry = MUTABLES + ('\n' + root.on_entry if root.on_entry else '')
+    for t in sc.transitions:
+        if rnd.random() < 0.6:
+            t.action = (t.action or 'pass') + '\nbag.append(x)\ncell.n += 1'
+            t.postconditions.append(rnd.choice(['len(bag) == len(__old__.bag) + 1', 'cell.n == __old__.cell.n + 1']))
+    for o in [sc.state_for(n) for n in sc.states] + list(sc.transitions):
+        if o is not root and rnd.random() < 0.4:
+            o.invariants.append(rnd.choice(['len(__old__.bag) <= len(bag)', '__old__.cell.n <= cell.n']))
+
+
 def warm(sc):
     """Use a `Statechart` the way a client does before it edits it: ask every structural question
     and run it.  Deterministic; whatever the statechart remembers from this must not matter later."""
@@ -317,6 +348,8 @@ def apply_edits(sc, edits):
                 sc.rename_state(e[1], e[2])
             elif e[0] == 'remove':
                 sc.remove_state(e[1])
+            elif e[0] == 'addtrans':
+                sc.add_transition(Transition(e[1], e[2], event=e[3], priority=e[4]))
             elif e[0] == 'initial':
                 sc.state_for(e[1]).initial = e[2]
             elif e[0] == 'memory':
@@ -357,7 +390,16 @@ def plan_edits(r, sc, need_wf=True):
                       (isinstance(sc.state_for(b), OrthogonalState) and owners_ok(a)))]
             if not cands:
                 continue
-            do(['move', a, r.choice(cands)])
+            b = r.choice(cands)
+            do(['move', a, b])
+            if r.random() < 0.5 and owners_ok(a):
+                # the moved state and one of its new ancestors react to the same event
+                up = [x for x in [b] + sc.ancestors_for(b) if owners_ok(x)]
+                if up:
+                    ev = r.choice(EVENTS)
+                    pr = r.choice([0, 0, 1, -1])
+                    do(['addtrans', a, a, ev, pr])
+                    do(['addtrans', r.choice(up), None if r.random() < 0.3 else a, ev, pr])
         elif c < 0.85:
             a = r.choice(names)
             # a new name that sorts elsewhere than the old one
